@@ -3,6 +3,9 @@ claimed = {
  'C07': dict(text='TLC exhaustively checks the design spec Dispatch.tla (every script assignment over 3 callbacks x patterns x 2 packets) against DispatchProps; the same DispatchProps module judges traces recorded from the real _IncomingPacketHandler (TLC -simulate behaviours replayed into the code with post-states compared, an exhaustive script product, 256-header sweeps, seeded random), and every trace is also required to be explained step-by-step by the design spec actions.',
              note='Trusted: the virtual threading shims (harness/vsched), the closure scripts that drive add/remove through the public Crazyflie API, TLC. Registrations in one scenario are distinct. Reserved header bits are normalised.',
              ref='5/C07', tech='TLA+ design spec + TLC; trace validation (monitor + conformance) of real executions; spec behaviours replayed into the code'),
+ 'C06': dict(text='TLC exhaustively checks the design spec MemProto.tla (chunked reads, queued writes under the write lock, dispatcher handlers, device, duplicated/delayed/error replies, link drop) against completion, exactly-once notification, tiling, write-order and not-wedged invariants; the monitor MemProtoTrace.tla (own model of the device memory rebuilt from the chunk messages) judges traces of the real Memory subsystem run under the virtual scheduler against the simulated device: every read length 0..61 and write length 0..76, dup/error/drop at every chunk, seeded random programs x fault scripts x device modes x schedules; TLC -simulate behaviours are replayed step by step into the real object with its state projected and compared.',
+             note='Trusted: simdev memory service as the firmware twin (validated against the monitor model on every trace), virtual scheduler shims, TLC. Exactness clauses are asserted for histories without duplicated replies (DESIGN 3.1(5a)). Two known findings (KNOWN_FINDINGS.txt) are reported as KNOWN-FINDING lines.',
+             ref='5/C06', tech='TLA+ design spec + TLC; trace validation of real executions under a deterministic scheduler; spec behaviours replayed with state projection'),
 }
 na = {
  'C09': 'numeric: convergence of non-linear least squares to 1 mm / 1 mrad -- no discrete state for TLA+/TLC to enumerate (DESIGN 6)',
